@@ -16,7 +16,7 @@ TRUSTED = ['Gen/Ident.v, Gen/Classes.v regenerated from the source on every run'
            'Core/Model.v: hand-written model (relation equations, span computation of CircuitCompositeOperation.duration), tied by this correspondence run']
 ASSUMPTIONS = ['binary64 arithmetic exact on generated durations; times compared as integers in ticks of 1/8']
 RULE = ('random build programs as for C01, with a raised share of JOINED_START / JOINED_END relations and long/short duration mixes so that the last-ending operation '
-        'is often not a relation leaf and operations start before the first-added ones; non-trivial: >= 2 leaves and (nested or explicit relation or shared qubit)')
+        'is often not a relation leaf and operations start before the first-added ones; non-trivial: >= 2 leaves and (nested or explicit relation or shared qubit) Plus ~13% structured shapes (coregen.gen_structured: parallel first blocks of unequal length under two levels of repetition with a follower of the first, a repeated block starting with a plain operation and containing a repeated block, two relation branches of unequal depth and length meeting through a barrier, a long chain beside a short operation followed by a repeated block, an early-starting operation in a doubly nested block).')
 
 
 def gen_cases(rng, tier):
